@@ -5,7 +5,9 @@ patch="$(realpath "$1")"; shift
 cd "$(dirname "$0")/.."
 if [ -n "$(git -C /repo status --porcelain)" ]; then echo "/repo is not clean"; exit 2; fi
 git -C /repo apply "$patch" || { echo "patch does not apply"; exit 2; }
-trap 'git -C /repo checkout -- . ; git -C /repo clean -fdq -- x >/dev/null 2>&1' EXIT
+# evidence written while /repo carries a seeded change must never end up committed: keep the files and put them back
+evsave=$(mktemp -d); cp -a evidence/. "$evsave"/ 2>/dev/null
+trap 'git -C /repo checkout -- . ; git -C /repo clean -fdq -- x >/dev/null 2>&1; cp -a "$evsave"/. evidence/ 2>/dev/null; rm -rf "$evsave"' EXIT
 tier="${VERIF_TIER:-quick}"
 for id in "$@"; do
   start=$(date +%s)
